@@ -114,6 +114,7 @@ def foa_post(c):
         ('Ext', Ext(S0, S1, c.uses)),
         ('denotation', And(isref(S1, r), semr(S1, r) == If(A[a.i], semr(S0, a.w), semr(S0, a.v)))),
         ('level', lv(S1, r) >= a.i),
+        ('level-exact', Implies(a.v != a.w, lv(S1, r) == a.i)),
         ('cache-kept', And(S1.ch == S0.ch, S1.cv == S0.cv)),
         ('flags-kept', And(S1.lastlen == S0.lastlen, S1.ctx == S0.ctx, S1.nvars == S0.nvars)),
         ('order-kept', M.keep(S0, S1, list(M.ORDER_FIELDS))),
@@ -169,3 +170,514 @@ ITE = reg(Contract('dd.bdd.BDD._ite', [('self', 'mgr'), ('g', 'int'), ('u', 'int
                    pre=lambda c: wf(c.S, c.uses) + [('refs', And(isref(c.S, c.a.g), isref(c.S, c.a.u), isref(c.S, c.a.v)))],
                    post=ite_post, modifies=ITE_MOD, ret='int', uses={'cache', 'rc', 'sem1'},
                    raises={'_NeedsReordering': NR(nr_post()), 'RuntimeError': Raise(when=lambda c: BoolVal(True))}))
+
+
+# ---------------------------------------------------------------------------------------------------------------
+# decorated methods: composition of the (separately verified) wrapper `_try_to_reorder._wrapper` with the body
+def guard(S):
+    """no reordering can fire inside a decorated call: nested in another decorated call, or requests off"""
+    return Or(S.ctx, S.lastlen < 0)
+
+
+def decorate(body, name):
+    """Contract of `@_try_to_reorder def f` as seen by callers, from the contract of its body (DESIGN App. A)."""
+    frame = [f for f in M.ALLF if f not in body.modifies and f not in ('lastlen', 'ctx')]
+
+    def pre(c):
+        return [(nm, g) for nm, g in body.pre(c) if nm != 'in-context']
+
+    def post(c):
+        S0, S1 = c.S0, c.S1
+        g0 = guard(S0)
+        # the body runs with ctx = True
+        Sb0 = S0.copy()
+        Sb0.ctx = BoolVal(True)
+        Sb1 = S1.copy()
+        Sb1.ctx = BoolVal(True)
+        bc = type(c)(**{**c.__dict__, 'S0': Sb0, 'S1': Sb1, 'S': Sb1})
+        out = [(nm, Implies(g0, cl)) for nm, cl in body.post(bc) if nm != 'flags-kept']
+        out += [('frame', Implies(g0, M.keep(S0, S1, frame))),
+                ('ctx-kept', S1.ctx == S0.ctx),
+                ('lastlen-kept-if-quiet', Implies(g0, S1.lastlen == S0.lastlen)),
+                ('reordering-still-enabled', (S1.lastlen >= 0) == (S0.lastlen >= 0)),
+                ('nvars-kept', S1.nvars == S0.nvars)]
+        return out
+    raises = {}
+    for exc, rs in body.raises.items():
+        if exc == '_NeedsReordering':
+            raises[exc] = Raise(when=lambda c: And(c.S0.ctx, c.S0.lastlen >= 0), post=rs.post)
+        else:
+            raises[exc] = rs
+    d = Contract(name, body.params, pre, post, modifies=M.ALLF, ret=body.ret, raises=raises, uses=body.uses,
+                 mutates=body.mutates, note=f'composition of dd.bdd._try_to_reorder._wrapper with {body.name}')
+    d.decorated_body = body.name
+    return d
+
+
+def in_context(c):
+    return [('in-context', c.S.ctx)]
+
+
+ITE_BODY = reg(Contract('dd.bdd.BDD.ite!body', ITE.params,
+                        pre=lambda c: ITE.pre(c) + in_context(c), post=ite_post, modifies=ITE_MOD, ret='int',
+                        uses=ITE.uses, raises=ITE.raises))
+ITE_DEC = reg(decorate(ITE_BODY, 'dd.bdd.BDD.ite'))
+
+# ---------------------------------------------------------------------------------------------------------------
+# operator symbols (read from dd/_abc.py by ast in run.py: `OPSETS`); spelling classes from the statement of C01
+SPELLINGS = {
+    'not': ['~', 'not', '!'],
+    'and': ['and', '/\\', '&', '&&'],
+    'or': ['or', '\\/', '|', '||'],
+    'xor': ['#', 'xor', '^'],
+    'implies': ['=>', '->', 'implies'],
+    'equiv': ['<=>', '<->', 'equiv'],
+    'diff': ['diff', '-'],
+    'ite': ['ite'],
+    'forall': ['\\A', 'forall'],
+    'exists': ['\\E', 'exists'],
+}
+CLASS_OF = {s: c for c, ss in SPELLINGS.items() for s in ss}
+OPSETS = {}   # filled by run.load_opsets(): unary / binary / ternary / all
+
+
+def spec_connective(cls, a, b, c_):
+    """truth function named in the statement of C01"""
+    return {'not': lambda: Not(a), 'and': lambda: And(a, b), 'or': lambda: Or(a, b), 'xor': lambda: a != b,
+            'implies': lambda: Or(Not(a), b), 'equiv': lambda: a == b, 'diff': lambda: And(a, Not(b)),
+            'ite': lambda: If(a, b, c_)}[cls]()
+
+
+def aoa_bad(op, v_none, w_none):
+    if op not in OPSETS['all']:
+        return BoolVal(True)
+    if op in OPSETS['unary']:
+        return Or(Not(v_none), Not(w_none))
+    if op in OPSETS['binary']:
+        return Or(v_none, Not(w_none))
+    if op in OPSETS['ternary']:
+        return Or(v_none, w_none)
+    return BoolVal(False)
+
+
+reg(Contract('dd._utils.assert_operator_arity', [('op', 'op'), ('v', 'optint'), ('w', 'optint'), ('diagram_type', 'op')],
+             pre=lambda c: [], post=lambda c: [], ret='none', mgr='-',
+             raises={'ValueError': Raise(when=lambda c: aoa_bad(c.a.op, c.a.v_none, c.a.w_none), must=True)}))
+
+SUPP = M.Function('SUPP', I, M.Name, B) if hasattr(M, 'Function') else None
+n_ = M.Const('n!b', M.Name)
+
+reg(Contract('dd.bdd.BDD.support', [('self', 'mgr'), ('u', 'int'), ('as_levels', 'bool=False')],
+             pre=lambda c: [('ref', isref(c.S, c.a.u))],
+             post=lambda c: [('set', ForAll([n_], And(c.r.has[n_] == SUPP(c.a.u, n_), Implies(c.r.has[n_], c.S0.vin[n_])),
+                                            patterns=[c.r.has[n_]]))],
+             ret='set:name', assumed=True,
+             note='assumed (bounded-checked by C10): returns the set SUPP(u) of declared names'))
+
+
+def q_binds_support(S, u):
+    return ForAll([l_], Q[l_] == And(S.lin[l_], SUPP(u, S.l2v[l_])), patterns=[Q[l_]])
+
+
+def q_is_levels_of(S, qs):
+    """Q is exactly the set of levels of the names in the set qs (two implications, no existential)"""
+    return [('qvars-declared', ForAll([n_], Implies(qs.has[n_], And(S.vin[n_], Q[S.v2l[n_]])), patterns=[qs.has[n_]])),
+            ('qvars-onto', ForAll([l_], Implies(Q[l_], And(S.lin[l_], qs.has[S.l2v[l_]])), patterns=[Q[l_]]))]
+
+
+def quantify_post(c):
+    S0, S1, a, r = c.S0, c.S1, c.a, c.r
+    return wf(S1, c.uses) + [
+        ('Ext', Ext(S0, S1, c.uses)),
+        ('QE', And(isref(S1, r), semr(S1, r) == If(a.forall, qfar(S0, a.u), qexr(S0, a.u)))),
+        ('level', lv(S1, r) >= lv(S0, a.u)),
+        ('flags-kept', And(S1.lastlen == S0.lastlen, S1.ctx == S0.ctx, S1.nvars == S0.nvars)),
+        ('order-kept', M.keep(S0, S1, list(M.ORDER_FIELDS)))]
+
+
+QUANTIFY_BODY = reg(Contract('dd.bdd.BDD.quantify!body',
+                             [('self', 'mgr'), ('u', 'int'), ('qvars', 'set:name'), ('forall', 'bool=False')],
+                             pre=lambda c: wf(c.S, c.uses) + [('ref', isref(c.S, c.a.u))] + q_is_levels_of(c.S, c.a.qvars) + in_context(c),
+                             post=quantify_post, modifies=ITE_MOD, ret='int', uses={'cache', 'rc', 'qe', 'order'},
+                             raises={'_NeedsReordering': NR(nr_post()), 'RuntimeError': Raise(when=lambda c: BoolVal(True))}))
+QUANTIFY_DEC = reg(decorate(QUANTIFY_BODY, 'dd.bdd.BDD.quantify'))
+
+
+def apply_pre(c):
+    out = wf(c.S, c.uses)
+    cls = CLASS_OF.get(c.a.op)
+    if cls in ('forall', 'exists'):
+        out.append(('Q-is-support-of-first-operand', q_binds_support(c.S, c.a.u)))
+    return out
+
+
+def apply_valid(S, a):
+    ok = And(isref(S, a.u), Or(a.v_none, isref(S, a.v)), Or(a.w_none, isref(S, a.w)))
+    return And(Not(aoa_bad(a.op, a.v_none, a.w_none)), ok)
+
+
+def apply_post(c):
+    S0, S1, a, r = c.S0, c.S1, c.a, c.r
+    cls = CLASS_OF[a.op]
+    g0 = guard(S0)
+    if cls in ('forall', 'exists'):
+        want = qfar(S0, a.v) if cls == 'forall' else qexr(S0, a.v)
+    else:
+        want = spec_connective(cls, semr(S0, a.u), semr(S0, a.v), semr(S0, a.w))
+    out = [(nm, Implies(g0, cl)) for nm, cl in wf(S1, c.uses)]
+    out += [('connective', Implies(g0, And(isref(S1, r), semr(S1, r) == want))),
+            ('Ext', Implies(g0, Ext(S0, S1, c.uses))),
+            ('ctx-kept', S1.ctx == S0.ctx),
+            ('reordering-still-enabled', (S1.lastlen >= 0) == (S0.lastlen >= 0))]
+    return out
+
+
+reg(Contract('dd.bdd.BDD.apply', [('self', 'mgr'), ('op', 'op'), ('u', 'int'), ('v', 'optint'), ('w', 'optint')],
+             pre=apply_pre, post=apply_post, modifies=M.ALLF, ret='int', uses={'cache', 'rc', 'qe', 'order'},
+             raises={'ValueError': Raise(when=lambda c: Not(apply_valid(c.S0, c.a)), must=True),
+                     '_NeedsReordering': Raise(when=lambda c: And(c.S0.ctx, c.S0.lastlen >= 0), post=nr_post()),
+                     'RuntimeError': Raise(when=lambda c: BoolVal(True))}))
+
+
+# ---------------------------------------------------------------------------------------------------------------
+# variable order (C14)
+ORD = {'order'}
+
+
+def nodes_kept(S0, S1, except_terminal_level=True):
+    """every node keeps shape, count and denotations; only the terminal's level may move"""
+    flds = ['lo', 'hi', 'ref', 'indeg', 'ext', 'sem', 'sem2', 'sem3', 'sem1', 'qex', 'qfa', 'hl']
+    cl = [S1.dom == S0.dom, S1.minfree == S0.minfree, S1.nsucc == S0.nsucc]
+    cl += [getattr(S1, f) == getattr(S0, f) for f in flds]
+    cl.append(ForAll([x_], Implies(x_ != 1, S1.lvl[x_] == S0.lvl[x_]), patterns=[S1.lvl[x_]]))
+    return And(*cl)
+
+
+def it_pre(c):
+    S, a = c.S, c.a
+    base = {k: v for k, v in WF(S, c.uses).items() if k not in ('W1-terminal', 'W3-level-range')}
+    return list(base.items()) + [
+        ('terminal-present', And(S.dom[1], S.lo[1] == 0, S.hi[1] == 0, S.lvl[1] >= 0)),
+        ('level', And(a.level >= 0, a.level == S.nvars, a.level >= S.lvl[1])),
+        ('nodes-above', ForAll([x_], Implies(And(S.dom[x_], x_ > 1), And(0 <= S.lvl[x_], S.lvl[x_] < S.lvl[1])), patterns=[S.dom[x_]])),
+        ('terminal-fork-only-terminal', ForAll([M._t], Implies(And(S.ph[M._t], Fork.lo(M._t) == 0), S.pv[M._t] == 1), patterns=[S.ph[M._t]]))]
+
+
+def it_post(c):
+    S0, S1, a = c.S0, c.S1, c.a
+    return wf(S1, c.uses) + [('terminal-level', S1.lvl[1] == a.level), ('nodes-kept', nodes_kept(S0, S1)),
+                             ('cache-kept', And(S1.ch == S0.ch, S1.cv == S0.cv)),
+                             ('order-kept', M.keep(S0, S1, list(M.ORDER_FIELDS) + ['nvars', 'lastlen', 'ctx']))]
+
+
+reg(Contract('dd.bdd.BDD._init_terminal', [('self', 'mgr'), ('level', 'int')], pre=it_pre, post=it_post,
+             modifies=['lvl', 'ph', 'pv', 'ref', 'dom', 'lo', 'hi', 'indeg', 'ext', 'sem', 'sem2', 'sem3', 'sem1', 'qex', 'qfa', 'hl', 'nsucc'],
+             ret='none', uses=None,
+             note='verified for the call from add_var (terminal present); the call from __init__ (empty tables) is bounded'))
+
+
+def cv_bad(S, a):
+    return Or(Not(S.vin[a.var]), And(Not(a.level_none), a.level != S.v2l[a.var]))
+
+
+reg(Contract('dd.bdd.BDD._check_var', [('self', 'mgr'), ('var', 'name'), ('level', 'optint')],
+             pre=lambda c: wf(c.S, c.uses), post=lambda c: [('level-of-var', c.r == c.S0.v2l[c.a.var])], ret='int', uses=ORD,
+             raises={'ValueError': Raise(when=lambda c: cv_bad(c.S0, c.a), must=True)}))
+
+
+def nfl_level(S, a):
+    return If(a.level_none, S.nvars, a.level)
+
+
+reg(Contract('dd.bdd.BDD._next_free_level', [('self', 'mgr'), ('var', 'name'), ('level', 'optint')],
+             pre=lambda c: wf(c.S, c.uses) + [('level-nonneg', Or(c.a.level_none, c.a.level >= 0))],
+             post=lambda c: [('free', And(c.r == nfl_level(c.S0, c.a), Not(c.S0.lin[c.r])))], ret='int', uses=ORD,
+             raises={'ValueError': Raise(when=lambda c: c.S0.lin[nfl_level(c.S0, c.a)], must=True)}))
+
+
+def add_var_bad(S, a):
+    return If(S.vin[a.var], cv_bad(S, a), S.lin[nfl_level(S, a)])
+
+
+def add_var_post(c):
+    S0, S1, a, r = c.S0, c.S1, c.a, c.r
+    L = nfl_level(S0, a)
+    new = Not(S0.vin[a.var])
+    n2 = M.Const('n2!b', M.Name)
+    return [(nm, cl) for nm, cl in wf(S1, c.uses)] + [
+        ('existing-idempotent', Implies(S0.vin[a.var], And(r == S0.v2l[a.var], M.keep(S0, S1)))),
+        ('new-level', Implies(new, And(r == L, S1.vin[a.var], S1.v2l[a.var] == L, S1.lin[L], S1.l2v[L] == a.var,
+                                       S1.nvars == S0.nvars + 1, S1.lvl[1] == S1.nvars))),
+        ('new-bottom-level-by-default', Implies(And(new, a.level_none), r == S0.nvars)),
+        ('others-kept', Implies(new, And(
+            ForAll([n2], Implies(n2 != a.var, And(S1.vin[n2] == S0.vin[n2], S1.v2l[n2] == S0.v2l[n2])), patterns=[S1.vin[n2]]),
+            ForAll([l_], Implies(l_ != L, And(S1.lin[l_] == S0.lin[l_], S1.l2v[l_] == S0.l2v[l_])), patterns=[S1.lin[l_]])))),
+        ('functions-kept', Implies(new, nodes_kept(S0, S1))),
+        ('flags-kept', And(S1.lastlen == S0.lastlen, S1.ctx == S0.ctx))]
+
+
+reg(Contract('dd.bdd.BDD.add_var', [('self', 'mgr'), ('var', 'name'), ('level', 'optint')],
+             pre=lambda c: wf(c.S, c.uses) + [('level-no-gap', Or(c.a.level_none, And(c.a.level >= 0, c.a.level <= c.S.nvars)))],
+             post=add_var_post, modifies=M.ALLF, ret='int', uses=None,
+             raises={'ValueError': Raise(when=lambda c: add_var_bad(c.S0, c.a), must=True)},
+             note='precondition level <= len(vars): a larger explicit level leaves a gap (known finding D4)'))
+
+
+def declare_inv(c):
+    S = c.mgrs['self']
+    arr = c.env['variables'].arr
+    E = c.entry['self']
+    n2 = M.Const('n2!b', M.Name)
+    return wf(S, c.uses) + [
+        ('declared-so-far', ForAll([k_], Implies(And(0 <= k_, k_ < c.idx), S.vin[arr[k_]]), patterns=[arr[k_]])),
+        ('old-names-keep-levels', ForAll([n2], Implies(E.vin[n2], And(S.vin[n2], S.v2l[n2] == E.v2l[n2])), patterns=[E.vin[n2]])),
+        ('functions-kept', nodes_kept(E, S)), ('grows', S.nvars >= E.nvars),
+        ('flags-kept', And(S.lastlen == E.lastlen, S.ctx == E.ctx))]
+
+
+def declare_post(c):
+    S0, S1 = c.S0, c.S1
+    arr, n = c.a.variables.arr, c.a.variables.n
+    n2 = M.Const('n2!b', M.Name)
+    return wf(S1, c.uses) + [
+        ('all-declared', ForAll([k_], Implies(And(0 <= k_, k_ < n), S1.vin[arr[k_]]), patterns=[arr[k_]])),
+        ('old-names-keep-levels', ForAll([n2], Implies(S0.vin[n2], And(S1.vin[n2], S1.v2l[n2] == S0.v2l[n2])), patterns=[S0.vin[n2]])),
+        ('functions-kept', nodes_kept(S0, S1))]
+
+
+reg(Contract('dd.bdd.BDD.declare', [('self', 'mgr'), ('variables', 'list:name')],
+             pre=lambda c: wf(c.S, c.uses) + [('n', c.a.variables.n >= 0)], post=declare_post, modifies=M.ALLF, ret='none', uses=None,
+             loops={0: dict(inv=declare_inv, modifies_mgr=[('self', M.ALLF)])}))
+
+reg(Contract('dd.bdd.BDD.var_at_level', [('self', 'mgr'), ('level', 'int')],
+             pre=lambda c: wf(c.S, c.uses), post=lambda c: [('view', And(c.r == c.S0.l2v[c.a.level], c.S0.vin[c.r], c.S0.v2l[c.r] == c.a.level))],
+             ret='name', uses=ORD, raises={'ValueError': Raise(when=lambda c: Not(c.S0.lin[c.a.level]), must=True)}))
+
+reg(Contract('dd.bdd.BDD.level_of_var', [('self', 'mgr'), ('var', 'name')],
+             pre=lambda c: wf(c.S, c.uses), post=lambda c: [('view', And(c.r == c.S0.v2l[c.a.var], c.S0.lin[c.r], c.S0.l2v[c.r] == c.a.var,
+                                                                          0 <= c.r, c.r < c.S0.nvars))],
+             ret='int', uses=ORD, raises={'ValueError': Raise(when=lambda c: Not(c.S0.vin[c.a.var]), must=True)}))
+
+reg(Contract('dd.bdd.BDD.var_levels', [('self', 'mgr')],
+             pre=lambda c: wf(c.S, c.uses), post=lambda c: [('copy-of-vars', And(c.r.has == c.S0.vin, c.r.val == c.S0.v2l))],
+             ret='dict:name->int', uses=ORD))
+
+
+def var_post(c):
+    S0, S1, a, r = c.S0, c.S1, c.a, c.r
+    return wf(S1, c.uses) + [('Ext', Ext(S0, S1, c.uses)),
+                             ('denotation', And(isref(S1, r), semr(S1, r) == A[S0.v2l[a.var]], r > 0)),
+                             ('level', lv(S1, r) == S0.v2l[a.var]),
+                             ('flags-kept', And(S1.lastlen == S0.lastlen, S1.ctx == S0.ctx, S1.nvars == S0.nvars)),
+                             ('order-kept', M.keep(S0, S1, list(M.ORDER_FIELDS))),
+                             ('cache-kept', And(S1.ch == S0.ch, S1.cv == S0.cv))]
+
+
+VAR_BODY = reg(Contract('dd.bdd.BDD.var!body', [('self', 'mgr'), ('var', 'name')],
+                        pre=lambda c: wf(c.S, c.uses) + in_context(c), post=var_post, modifies=M.NODE_MOD, ret='int',
+                        uses={'order', 'rc', 'cache', 'sem1'},
+                        raises={'ValueError': Raise(when=lambda c: Not(c.S0.vin[c.a.var]), must=True),
+                                '_NeedsReordering': NR(), 'RuntimeError': Raise(when=lambda c: BoolVal(True))}))
+VAR_DEC = reg(decorate(VAR_BODY, 'dd.bdd.BDD.var'))
+
+
+# ---------------------------------------------------------------------------------------------------------------
+# helpers for the recursions (C03, C04, C11)
+def list_sorted_onto(lst, has, idx=None):
+    """lst is the strictly increasing enumeration of exactly the set `has` (witness function idx)"""
+    k1, k2, l1 = Int('k1!c'), Int('k2!c'), Int('l!c')
+    idx = idx or getattr(lst, 'idx', None) or IDXW
+    return [('sorted', ForAll([k1, k2], Implies(And(0 <= k1, k1 < k2, k2 < lst.n), lst.arr[k1] < lst.arr[k2]),
+                              patterns=[MultiPattern(lst.arr[k1], lst.arr[k2])])),
+            ('elements', ForAll([k1], Implies(And(0 <= k1, k1 < lst.n), has[lst.arr[k1]]), patterns=[lst.arr[k1]])),
+            ('onto', ForAll([l1], Implies(has[l1], And(0 <= idx(l1), idx(l1) < lst.n, lst.arr[idx(l1)] == l1)), patterns=[has[l1]])),
+            ('n', lst.n >= 0)]
+
+
+IDXW = M.Function('IDXW', I, I)    # witness for "ordvar covers the key set" in the recursions' own verification
+
+
+def passed(S, lst, j, u):
+    return ForAll([k_], Implies(And(0 <= k_, k_ < j), lst.arr[k_] < lv(S, u)), patterns=[lst.arr[k_]])
+
+
+def skip_loop(c):
+    """invariant of `while j < n: if ordvar[j] < i: j += 1 else: break`"""
+    e0, e = c.env0, c.env
+    j0, j, i = e0['j'].z, e['j'].z, e['i'].z
+    lst = e['ordvar']
+    return [('bounds', And(j0 <= j, j <= lst.n)),
+            ('passed', ForAll([k_], Implies(And(0 <= k_, k_ < j), lst.arr[k_] < i), patterns=[lst.arr[k_]]))]
+
+
+REC_MOD = ITE_MOD
+REC_RAISES = {'_NeedsReordering': NR(nr_post()), 'RuntimeError': Raise(when=lambda c: BoolVal(True))}
+
+
+def flags(S0, S1):
+    return ('flags-kept', And(S1.lastlen == S0.lastlen, S1.ctx == S0.ctx, S1.nvars == S0.nvars))
+
+
+def memo_grows(c, nm='cache'):
+    old, new = c.muts[nm]
+    key = Int('mk!c') if old.kkind == 'int' else M.Const('mk!f', Fork)
+    return ('memo-grows', ForAll([key], Implies(old.has[key], And(new.has[key], new.val[key] == old.val[key])), patterns=[old.has[key]]))
+
+
+# ---- _quantify ---------------------------------------------------------------------------------------------------
+def QF(S, forall, x):
+    return If(forall, qfar(S, x), qexr(S, x))
+
+
+def q_memo_valid(S, cache, forall):
+    return ForAll([x_], Implies(cache.has[x_], And(isref(S, x_), isref(S, cache.val[x_]), semr(S, cache.val[x_]) == QF(S, forall, x_),
+                                                  lv(S, cache.val[x_]) >= lv(S, x_))), patterns=[cache.has[x_]])
+
+
+def quantify_rec_pre(c):
+    S, a = c.S, c.a
+    return wf(S, c.uses) + [('ref', isref(S, a.u)), ('j', And(0 <= a.j, a.j <= a.ordvar.n))] + \
+        list_sorted_onto(a.ordvar, a.qvars.has) + [
+        ('Q-is-qvars', ForAll([l_], Q[l_] == a.qvars.has[l_], patterns=[Q[l_]])),
+        ('passed', passed(S, a.ordvar, a.j, a.u)),
+        ('memo', q_memo_valid(S, a.cache, a.forall)), ('quiet', guard(S))]
+
+
+def quantify_rec_post(c):
+    S0, S1, a, r = c.S0, c.S1, c.a, c.r
+    return wf(S1, c.uses) + [('Ext', Ext(S0, S1, c.uses)),
+                             ('QE', And(isref(S1, r), semr(S1, r) == QF(S0, a.forall, a.u))),
+                             ('level', lv(S1, r) >= lv(S0, a.u)),
+                             ('memo', q_memo_valid(S1, c.muts['cache'][1], a.forall)), memo_grows(c), flags(S0, S1),
+                             ('order-kept', M.keep(S0, S1, list(M.ORDER_FIELDS)))]
+
+
+QREC = reg(Contract('dd.bdd.BDD._quantify', [('self', 'mgr'), ('u', 'int'), ('j', 'int'), ('ordvar', 'list:int'), ('qvars', 'set:int'),
+                                            ('forall', 'bool'), ('cache', 'dict:int->int')],
+                    pre=quantify_rec_pre, post=quantify_rec_post, modifies=REC_MOD, ret='int', uses={'cache', 'rc', 'qe'},
+                    mutates=['cache'], raises=REC_RAISES, loops={0: dict(inv=skip_loop, modifies=['j'])}))
+# at call sites the unchanged list/set parameters need not be re-proved: they are the caller's own parameters
+QREC.call_skip = {'sorted', 'elements', 'onto', 'n', 'Q-is-qvars'}
+
+# name -> level translation (assumed, bounded-checked): sets and dicts of names
+reg(Contract('dd.bdd.BDD._map_to_level:set', [('self', 'mgr'), ('d', 'set:name')],
+             pre=lambda c: wf(c.S, c.uses),
+             post=lambda c: [('levels-of-names', And(
+                 ForAll([n_], Implies(c.a.d.has[n_], And(c.S0.vin[n_], c.r.has[c.S0.v2l[n_]])), patterns=[c.a.d.has[n_]]),
+                 ForAll([l_], Implies(c.r.has[l_], And(c.S0.lin[l_], c.a.d.has[c.S0.l2v[l_]])), patterns=[c.r.has[l_]])))],
+             ret='set:int', uses=ORD, assumed=True, raises={'ValueError': Raise(when=lambda c: BoolVal(True))},
+             note='assumed (bounded-checked by C03/C04 drivers): translates declared names to their levels, ValueError otherwise'))
+reg(Contract('dd.bdd.BDD._map_to_level:dict', [('self', 'mgr'), ('d', 'dict:name->bool')],
+             pre=lambda c: wf(c.S, c.uses),
+             post=lambda c: [('levels-of-names', And(
+                 ForAll([n_], Implies(c.a.d.has[n_], And(c.S0.vin[n_], c.r.has[c.S0.v2l[n_]])), patterns=[c.a.d.has[n_]]),
+                 ForAll([l_], Implies(c.r.has[l_], And(c.S0.lin[l_], c.a.d.has[c.S0.l2v[l_]], c.r.val[l_] == c.a.d.val[c.S0.l2v[l_]])),
+                        patterns=[c.r.has[l_]])))],
+             ret='dict:int->bool', uses=ORD, assumed=True, raises={'ValueError': Raise(when=lambda c: BoolVal(True))},
+             note='assumed (bounded-checked): translates declared names to levels keeping bool(value)'))
+
+
+# ---- _cofactor ---------------------------------------------------------------------------------------------------
+def cof_memo_valid(S, cache):
+    return ForAll([x_], Implies(cache.has[x_], And(isref(S, x_), isref(S, cache.val[x_]), semr(S, cache.val[x_]) == semr(S, x_, 'sem2'),
+                                                  lv(S, cache.val[x_]) >= lv(S, x_))), patterns=[cache.has[x_]])
+
+
+def cof_pre(c):
+    S, a = c.S, c.a
+    return wf(S, c.uses) + [('ref', isref(S, a.u)), ('j', And(0 <= a.j, a.j <= a.ordvar.n))] + \
+        list_sorted_onto(a.ordvar, a.values.has) + [
+        ('A2-is-A-overridden-by-values', ForAll([l_], A2[l_] == If(a.values.has[l_], a.values.val[l_], A[l_]), patterns=[A2[l_]])),
+        ('passed', passed(S, a.ordvar, a.j, a.u)), ('memo', cof_memo_valid(S, a.cache))]
+
+
+def cof_post(c):
+    S0, S1, a, r = c.S0, c.S1, c.a, c.r
+    return wf(S1, c.uses) + [('Ext', Ext(S0, S1, c.uses)),
+                             ('substitution', And(isref(S1, r), semr(S1, r) == semr(S0, a.u, 'sem2'))),
+                             ('level', lv(S1, r) >= lv(S0, a.u)),
+                             ('memo', cof_memo_valid(S1, c.muts['cache'][1])), memo_grows(c), flags(S0, S1),
+                             ('cache-kept', And(S1.ch == S0.ch, S1.cv == S0.cv)),
+                             ('order-kept', M.keep(S0, S1, list(M.ORDER_FIELDS)))]
+
+
+COFREC = reg(Contract('dd.bdd.BDD._cofactor', [('self', 'mgr'), ('u', 'int'), ('j', 'int'), ('ordvar', 'list:int'),
+                                              ('values', 'dict:int->bool'), ('cache', 'dict:int->int')],
+                      pre=cof_pre, post=cof_post, modifies=M.NODE_MOD, ret='int', uses={'rc', 'sem2', 'agree:sem2'},
+                      mutates=['cache'], raises={'_NeedsReordering': NR(nr_post()), 'RuntimeError': Raise(when=lambda c: BoolVal(True))},
+                      loops={0: dict(inv=skip_loop, modifies=['j'])}))
+COFREC.call_skip = {'sorted', 'elements', 'onto', 'n', 'A2-is-A-overridden-by-values'}
+
+
+# ---- _compose ----------------------------------------------------------------------------------------------------
+def comp_val(S, f, g):
+    """f with level j replaced by g, under A:  A2 = A[j := true], A3 = A[j := false]"""
+    return If(semr(S, g), semr(S, f, 'sem2'), semr(S, f, 'sem3'))
+
+
+_kf = M.Const('kf!c', Fork)
+
+
+def comp_memo_valid(S, cache):
+    f_, g_ = Fork.l(_kf), Fork.lo(_kf)
+    return ForAll([_kf], Implies(cache.has[_kf], And(isref(S, f_), isref(S, g_), isref(S, cache.val[_kf]),
+                                                    semr(S, cache.val[_kf]) == comp_val(S, f_, g_),
+                                                    lv(S, cache.val[_kf]) >= min2(lv(S, f_), lv(S, g_)))), patterns=[cache.has[_kf]])
+
+
+def comp_pre(c):
+    S, a = c.S, c.a
+    return wf(S, c.uses) + [('refs', And(isref(S, a.f), isref(S, a.g))), ('j', And(0 <= a.j, a.j < S.nvars)),
+                            ('A2-A3', ForAll([l_], And(A2[l_] == If(l_ == a.j, True, A[l_]), A3[l_] == If(l_ == a.j, False, A[l_])),
+                                             patterns=[A2[l_]])),
+                            ('A3-pattern', ForAll([l_], A3[l_] == If(l_ == a.j, False, A[l_]), patterns=[A3[l_]])),
+                            ('memo', comp_memo_valid(S, a.cache)), ('quiet', guard(S))]
+
+
+def comp_post(c):
+    S0, S1, a, r = c.S0, c.S1, c.a, c.r
+    return wf(S1, c.uses) + [('Ext', Ext(S0, S1, c.uses)),
+                             ('substitution', And(isref(S1, r), semr(S1, r) == comp_val(S0, a.f, a.g))),
+                             ('level', lv(S1, r) >= min2(lv(S0, a.f), lv(S0, a.g))),
+                             ('memo', comp_memo_valid(S1, c.muts['cache'][1])), memo_grows(c), flags(S0, S1),
+                             ('order-kept', M.keep(S0, S1, list(M.ORDER_FIELDS)))]
+
+
+COMPREC = reg(Contract('dd.bdd.BDD._compose', [('self', 'mgr'), ('f', 'int'), ('j', 'int'), ('g', 'int'), ('cache', 'dict:fork->int')],
+                       pre=comp_pre, post=comp_post, modifies=REC_MOD, ret='int',
+                       uses={'cache', 'rc', 'sem2', 'sem3', 'agree:sem2', 'agree:sem3'}, mutates=['cache'], raises=REC_RAISES))
+COMPREC.call_skip = {'A2-A3', 'A3-pattern'}
+
+
+# ---- _vector_compose ---------------------------------------------------------------------------------------------
+def vc_memo_valid(S, cache):
+    return ForAll([x_], Implies(cache.has[x_], And(x_ >= 1, S.dom[x_], isref(S, cache.val[x_]), semr(S, cache.val[x_]) == S.sem2[x_])),
+                  patterns=[cache.has[x_]])
+
+
+def vc_pre(c):
+    S, a = c.S, c.a
+    sub = a.level_sub
+    return wf(S, c.uses) + [('ref', isref(S, a.f)),
+                            ('replacements-are-refs', ForAll([l_], Implies(sub.has[l_], isref(S, sub.val[l_])), patterns=[sub.has[l_]])),
+                            ('A2-is-simultaneous-substitution', ForAll([l_], A2[l_] == If(sub.has[l_], semr(S, sub.val[l_]), A[l_]), patterns=[A2[l_]])),
+                            ('memo', vc_memo_valid(S, a.cache)), ('quiet', guard(S))]
+
+
+def vc_post(c):
+    S0, S1, a, r = c.S0, c.S1, c.a, c.r
+    return wf(S1, c.uses) + [('Ext', Ext(S0, S1, c.uses)),
+                             ('substitution', And(isref(S1, r), semr(S1, r) == semr(S0, a.f, 'sem2'))),
+                             ('memo', vc_memo_valid(S1, c.muts['cache'][1])), memo_grows(c), flags(S0, S1),
+                             ('order-kept', M.keep(S0, S1, list(M.ORDER_FIELDS)))]
+
+
+VCREC = reg(Contract('dd.bdd.BDD._vector_compose', [('self', 'mgr'), ('f', 'int'), ('level_sub', 'dict:int->int'), ('cache', 'dict:int->int')],
+                     pre=vc_pre, post=vc_post, modifies=REC_MOD, ret='int', uses={'cache', 'rc', 'sem2'}, mutates=['cache'], raises=REC_RAISES))
+
+
+# ---- is_essential (C10) --------------------------------------------------------------------------------------------
+reg(Contract('dd.bdd.BDD.is_essential', [('self', 'mgr'), ('u', 'int'), ('var', 'name')],
+             pre=lambda c: wf(c.S, c.uses) + [('ref', isref(c.S, c.a.u)), ('HL-is-level-of-var', Implies(c.S.vin[c.a.var], HL == c.S.v2l[c.a.var]))],
+             post=lambda c: [('depends-on-var', c.r == And(c.S0.vin[c.a.var], c.S0.hl[absz(c.a.u)]))],
+             ret='bool', uses={'hl', 'order'}))
